@@ -9,7 +9,9 @@ nix_manipulator). Anything outside the fragment is refused with `OutsideFragment
                   comments anywhere between the tokens of a binding, none between `rec` and `{`
 
 The parser contract the Lean theorems rest on — `flatten(cst) == text`, every byte outside a leaf is
-whitespace — is checked here on every sample (`dump` raises `ContractBroken` otherwise).
+whitespace, and two neighbouring nodes are on the same row exactly when the gap between them has no
+line break (the model derives the rows the Python reads from the gaps) — is checked here on every
+sample (`dump` raises `ContractBroken` otherwise).
 """
 from __future__ import annotations
 
@@ -49,6 +51,12 @@ class _Conv:
             raise ContractBroken(f"non-whitespace bytes between leaves: {g!r}")
         return g.decode("utf-8")
 
+    def rows(self, prev, node, g: str):
+        """The model derives `comment.start_point.row == prev.end_point.row` from the gap (no line
+        break in it); check that against the positions tree-sitter reports."""
+        if prev is not None and (node.start_point.row == prev.end_point.row) != ("\n" not in g):
+            raise ContractBroken(f"row equality is not `no line break in the gap`: {g!r}")
+
     # ------------------------------------------------------------------ tree form
     # cst  : ("l", kind, text) | ("L", items, closeGap) | ("S", rec, recGap, items, closeGap)
     # item : ("c", gap, text) | ("e", gap, cst) | ("b", gap, name, c1, g1, c2, g2, cst, c3, g3)
@@ -64,14 +72,15 @@ class _Conv:
             ch = n.children
             if not ch or ch[0].type != "[" or ch[-1].type != "]":
                 raise OutsideFragment("list shape")
-            items, pos = [], ch[0].end_byte
+            items, pos, prev = [], ch[0].end_byte, ch[0]
             for c in ch[1:-1]:
                 g = self.gap(pos, c.start_byte)
+                self.rows(prev, c, g)
                 if c.type == "comment":
                     items.append(("c", g, self.t(c.start_byte, c.end_byte)))
                 else:
                     items.append(("e", g, self.expr(c)))
-                pos = c.end_byte
+                pos, prev = c.end_byte, c
             return ("L", items, self.gap(pos, ch[-1].start_byte))
         if n.type in ("attrset_expression", "rec_attrset_expression"):
             ch = list(n.children)
@@ -90,16 +99,17 @@ class _Conv:
                     members.extend(c.children)
                 else:
                     members.append(c)
-            items, pos = [], ch[0].end_byte
+            items, pos, prev = [], ch[0].end_byte, ch[0]
             for c in members:
                 g = self.gap(pos, c.start_byte)
+                self.rows(prev, c, g)
                 if c.type == "comment":
                     items.append(("c", g, self.t(c.start_byte, c.end_byte)))
                 elif c.type == "binding":
                     items.append(self.binding(g, c))
                 else:
                     raise OutsideFragment(c.type)
-                pos = c.end_byte
+                pos, prev = c.end_byte, c
             return ("S", rec, rec_gap, items, self.gap(pos, ch[-1].start_byte))
         raise OutsideFragment(n.type)
 
@@ -113,9 +123,10 @@ class _Conv:
         name = self.t(ap.start_byte, ap.end_byte)
         runs = [[], [], []]  # comments before `=`, before the value, before `;`
         gaps = [None, None, None]
-        stage, pos, value = 0, ap.end_byte, None
+        stage, pos, value, prev = 0, ap.end_byte, None, ap
         for c in ch[1:]:
             g2 = self.gap(pos, c.start_byte)
+            self.rows(prev, c, g2)
             if c.type == "comment":
                 if stage > 2:
                     raise OutsideFragment("binding shape")
@@ -132,21 +143,22 @@ class _Conv:
                 stage = 2
             else:
                 raise OutsideFragment("binding shape")
-            pos = c.end_byte
+            pos, prev = c.end_byte, c
         if stage != 3 or value is None:
             raise OutsideFragment("binding shape")
         return ("b", g, name, runs[0], gaps[0], runs[1], gaps[1], value, runs[2], gaps[2])
 
     def file(self, root):
-        items, pos, n_expr = [], 0, 0
+        items, pos, n_expr, prev = [], 0, 0, None
         for c in root.children:
             g = self.gap(pos, c.start_byte)
+            self.rows(prev, c, g)
             if c.type == "comment":
                 items.append(("c", g, self.t(c.start_byte, c.end_byte)))
             else:
                 n_expr += 1
                 items.append(("e", g, self.expr(c)))
-            pos = c.end_byte
+            pos, prev = c.end_byte, c
         if n_expr != 1:
             raise OutsideFragment("no top-level expression")
         return ("F", items, self.gap(pos, len(self.b)))
